@@ -988,3 +988,132 @@ Qed.
 (* a refused or panicking operation leaves no trace *)
 Lemma refused_no_trace caddr s o : (forall a, snd (step caddr s o) <> ROk a) -> fst (step caddr s o) = s.
 Proof. intros H. destruct (step caddr s o) as [s' r] eqn:E. cbn in *. eapply step_fail; eauto. Qed.
+
+(* ---------------------------------------------------------------- a node's life: local requests are erasable *)
+
+Section NodeProofs.
+  Variable caddr : Z -> Z.
+  Variable hrp : Z.
+
+  Lemma hrun_app l1 : forall old s l2,
+    hrun caddr hrp old s (l1 ++ l2) =
+    let '((o1, s1), outs1) := hrun caddr hrp old s l1 in
+    let '(n, outs2) := hrun caddr hrp o1 s1 l2 in
+    (n, outs1 ++ outs2).
+  Proof.
+    induction l1 as [|h l1 IH]; intros old s l2; cbn [app hrun].
+    - destruct (hrun caddr hrp old s l2) as [n outs]. reflexivity.
+    - destruct h as [o|[k md v a p|o]].
+      + destruct (step caddr s o) as [s1 x]. rewrite IH.
+        destruct (hrun caddr hrp (versions old s) s1 l1) as [[o1 s2] outs1].
+        destruct (hrun caddr hrp o1 s2 l2) as [n outs2]. reflexivity.
+      + rewrite IH. destruct (hrun caddr hrp old s l1) as [[o1 s2] outs1].
+        destruct (hrun caddr hrp o1 s2 l2) as [n outs2]. reflexivity.
+      + rewrite IH. destruct (hrun caddr hrp old s l1) as [[o1 s2] outs1].
+        destruct (hrun caddr hrp o1 s2 l2) as [n outs2]. reflexivity.
+  Qed.
+
+  (* the node after a life = the node after the consensus operations alone *)
+  Lemma hrun_node_erase l : forall old s,
+    fst (hrun caddr hrp old s l) = fst (hrun caddr hrp old s (map HOp (erase l))).
+  Proof.
+    induction l as [|h l IH]; intros old s; cbn [erase map hrun]; [reflexivity|].
+    destruct h as [o|[k md v a p|o]]; cbn [map hrun].
+    - destruct (step caddr s o) as [s1 x]. specialize (IH (versions old s) s1).
+      destruct (hrun caddr hrp (versions old s) s1 l) as [n outs].
+      destruct (hrun caddr hrp (versions old s) s1 (map HOp (erase l))) as [n' outs']. exact IH.
+    - specialize (IH old s). destruct (hrun caddr hrp old s l) as [n outs]. exact IH.
+    - specialize (IH old s). destruct (hrun caddr hrp old s l) as [n outs]. exact IH.
+  Qed.
+
+  (* its latest version and the consensus outcomes are those of the plain run *)
+  Lemma hrun_consensus l : forall old s,
+    snd (fst (hrun caddr hrp old s l)) = fst (run caddr s (erase l)) /\
+    consensus_outs (snd (hrun caddr hrp old s l)) = map snd (snd (run caddr s (erase l))).
+  Proof.
+    induction l as [|h l IH]; intros old s; cbn [erase hrun run]; [split; reflexivity|].
+    destruct h as [o|[k md v a p|o]]; cbn [run].
+    - destruct (step caddr s o) as [s1 x]. specialize (IH (versions old s) s1).
+      destruct (hrun caddr hrp (versions old s) s1 l) as [n outs].
+      destruct (run caddr s1 (erase l)) as [s2 t]. cbn [fst snd consensus_outs map] in *.
+      destruct IH as [A B]. split; [exact A|]. rewrite B. reflexivity.
+    - specialize (IH old s). destruct (hrun caddr hrp old s l) as [n outs]. exact IH.
+    - specialize (IH old s). destruct (hrun caddr hrp old s l) as [n outs]. exact IH.
+  Qed.
+
+  (* whatever requests were served during [l1]: the node is the same as without them, and so is everything that
+     happens afterwards — consensus outcomes, answers to calls on any version, simulation reports *)
+  Lemma traffic_erasable old s l1 l2 :
+    let n1 := fst (hrun caddr hrp old s l1) in
+    let n1' := fst (hrun caddr hrp old s (map HOp (erase l1))) in
+    n1 = n1' /\
+    snd (hrun caddr hrp old s (l1 ++ l2)) =
+      snd (hrun caddr hrp old s l1) ++ snd (hrun caddr hrp (fst n1') (snd n1') l2).
+  Proof.
+    cbv zeta. split; [apply hrun_node_erase|].
+    rewrite hrun_app. rewrite <- hrun_node_erase.
+    destruct (hrun caddr hrp old s l1) as [[o1 s1] outs1]. cbn [fst snd].
+    destruct (hrun caddr hrp o1 s1 l2) as [n outs2]. reflexivity.
+  Qed.
+
+  (* the answer to the call at any position of a life is the model's answer on the named version of the versions
+     produced by the consensus operations before it — no earlier request has any influence *)
+  Lemma answer_by_version old s l1 k md v a p l2 :
+    let n1 := fst (hrun caddr hrp old s (map HOp (erase l1))) in
+    nth_error (snd (hrun caddr hrp old s (l1 ++ HReq (NCall k md v a p) :: l2))) (length l1)
+    = Some (OAns (answer_at hrp (versions (fst n1) (snd n1)) k md v a p)).
+  Proof.
+    cbv zeta. rewrite <- hrun_node_erase. rewrite hrun_app.
+    assert (L : forall l o0 s0, length (snd (hrun caddr hrp o0 s0 l)) = length l).
+    { induction l as [|h l IH]; intros o0 s0; cbn [hrun]; [reflexivity|].
+      destruct h as [o|[k' md' v' a' p'|o]].
+      - destruct (step caddr s0 o) as [s1 x]. specialize (IH (versions o0 s0) s1).
+        destruct (hrun caddr hrp (versions o0 s0) s1 l). cbn [snd length] in *. congruence.
+      - specialize (IH o0 s0). destruct (hrun caddr hrp o0 s0 l). cbn [snd length] in *. congruence.
+      - specialize (IH o0 s0). destruct (hrun caddr hrp o0 s0 l). cbn [snd length] in *. congruence. }
+    specialize (L l1 old s).
+    destruct (hrun caddr hrp old s l1) as [[o1 s1] outs1]. cbn [fst snd] in *. cbn [hrun].
+    destruct (hrun caddr hrp o1 s1 l2) as [n outs2]. cbn [snd].
+    rewrite nth_error_app2 by lia. rewrite L, Nat.sub_diag. reflexivity.
+  Qed.
+
+  (* every version of a node that started from a reachable state and executed messages is reachable *)
+  Lemma hrun_versions_reachable l : forall old s,
+    Forall (reachable caddr) old -> reachable caddr s -> Forall msg_op (erase l) ->
+    let n := fst (hrun caddr hrp old s l) in Forall (reachable caddr) (versions (fst n) (snd n)).
+  Proof.
+    induction l as [|h l IH]; intros old s Ho Rs F; cbn [hrun erase] in *.
+    - cbn [fst snd]. unfold versions. apply Forall_app. split; [exact Ho|constructor; [exact Rs|constructor]].
+    - destruct h as [o|[k md v a p|o]].
+      + inversion F as [|? ? Mo F']; subst.
+        pose proof (reachable_step caddr s o Rs Mo) as R1.
+        destruct (step caddr s o) as [s1 x] eqn:E. cbn [fst] in R1.
+        assert (Hv : Forall (reachable caddr) (versions old s)).
+        { unfold versions. apply Forall_app. split; [exact Ho|constructor; [exact Rs|constructor]]. }
+        specialize (IH (versions old s) s1 Hv R1 F').
+        destruct (hrun caddr hrp (versions old s) s1 l) as [n outs]. exact IH.
+      + specialize (IH old s Ho Rs F). destruct (hrun caddr hrp old s l) as [n outs]. exact IH.
+      + specialize (IH old s Ho Rs F). destruct (hrun caddr hrp old s l) as [n outs]. exact IH.
+  Qed.
+End NodeProofs.
+
+(* a call on ANY version of such a node, in any mode, by any kind of caller, is decided by that version's registry *)
+Lemma historic_call_classes caddr hrp old s l k md v a p r :
+  Forall (reachable caddr) old -> reachable caddr s -> Forall msg_op (erase l) -> std_precompile a = false ->
+  let n := fst (hrun caddr hrp old s l) in
+  answer_at hrp (versions (fst n) (snd n)) k md v a p = Some r ->
+  exists sk, nth_error (versions (fst n) (snd n)) k = Some sk /\
+    match lookup (metas sk) a with
+    | None => r = POkEmpty
+    | Some m => r = if m_disabled m then match v with Direct => PFail | _ => PRevert end else probe_custom hrp m p
+    end.
+Proof.
+  intros Ho Rs F S n A. pose proof (hrun_versions_reachable caddr hrp l old s Ho Rs F) as RV. cbv zeta in RV.
+  fold n in RV. unfold answer_at in A.
+  destruct (nth_error (versions (fst n) (snd n)) k) as [sk|] eqn:E; [|discriminate].
+  exists sk. split; [reflexivity|].
+  assert (Rk : reachable caddr sk).
+  { rewrite Forall_forall in RV. apply RV. eapply nth_error_In; eauto. }
+  pose proof (probe_via_classes caddr hrp md v sk a p Rk S) as C.
+  inversion A; subst r. exact C.
+Qed.
